@@ -22,9 +22,9 @@ Section FullPerm.
   Lemma shm_perm a f : shm K Psc a (P f) = P (shm K sc (sg a) f).
   Proof. destruct a as [|[|a]]; reflexivity. Qed.
   Lemma avgE_perm f c l : avgE K Psc (P f) c l = P (avgE K sc f (sg c) (sg l)).
-  Proof. unfold avgE. rewrite (shm_perm c f), (shp_perm l f), (shp_perm l (shm K sc (sg c) f)). reflexivity. Qed.
+  Proof. unfold avgE. rewrite (shm_perm c f), (shp_perm l f), (shp_perm l (shm K sc (sg c) f)). destruct c as [|[|c]]; reflexivity. Qed.
   Lemma avgH_perm f c l : avgH K Psc (P f) c l = P (avgH K sc f (sg c) (sg l)).
-  Proof. unfold avgH. rewrite (shp_perm c f), (shm_perm l f), (shm_perm l (shp K sc (sg c) f)). reflexivity. Qed.
+  Proof. unfold avgH. rewrite (shp_perm c f), (shm_perm l f), (shm_perm l (shp K sc (sg c) f)). destruct l as [|[|l]]; reflexivity. Qed.
   Lemma comp_perm v r : comp K (PV v) r = P (comp K v (sg r)).
   Proof. destruct r as [|[|r]]; reflexivity. Qed.
 
